@@ -8,6 +8,7 @@
      insertReg.FindAllString -> find_markers
      insertionPointReplacer.Add -> add_pair
      strings.NewReplacer(...).Replace (generic replacer) -> replace
+     insertionPointReplacer.Replace (keys listed in descending order) -> listed_pairs
      BuildResponse -> build *)
 From Coq Require Import List Arith Bool Lia NArith.
 From Coq.Strings Require Import Byte String.
@@ -209,6 +210,30 @@ Fixpoint replace_go (pairs : list (bytes * bytes)) (skip : nat) (s : bytes) : by
   end.
 Definition replace (pairs : list (bytes * bytes)) (s : bytes) : bytes := replace_go pairs 0 s.
 
+(* Go's <= on strings: byte-wise lexicographic *)
+Definition bleb (a b : byte) : bool := (Byte.to_N a <=? Byte.to_N b)%N.
+Fixpoint lex_leb (x y : bytes) : bool :=
+  match x, y with
+  | [], _ => true
+  | _ :: _, [] => false
+  | a :: x', b :: y' => if Byte.eqb a b then lex_leb x' y' else bleb a b
+  end.
+
+(* sort.Sort(sort.Reverse(sort.StringSlice(keys))): descending, so of two keys where one is a
+   prefix of the other the longer comes first *)
+Fixpoint insert_desc (x : bytes) (l : list bytes) : list bytes :=
+  match l with
+  | [] => [x]
+  | y :: r => if lex_leb y x then x :: l else y :: insert_desc x r
+  end.
+Fixpoint sort_desc (l : list bytes) : list bytes :=
+  match l with [] => [] | x :: r => insert_desc x (sort_desc r) end.
+
+(* insertionPointReplacer.Replace: the keys of the table in descending order, each with its text *)
+Definition listed_pairs (pairs : list (bytes * bytes)) : list (bytes * bytes) :=
+  map (fun k => (k, match lookup k pairs with Some v => v | None => [] end))
+      (sort_desc (map fst pairs)).
+
 Definition patches_of (m : fm) (name : bytes) : list gen :=
   match lookup name (patch m) with Some l => l | None => [] end.
 
@@ -216,7 +241,7 @@ Definition build_one (m : fm) (f : bytes * bytes) : bytes * bytes :=
   let '(name, content) := f in
   let pairs := fold_left (fun acc p => add_pair acc (marker (g_ip p)) (g_content p))
                          (patches_of m name) (init_pairs content) in
-  (name, replace pairs content).
+  (name, replace (listed_pairs pairs) content).
 
 Definition build (m : fm) : list (bytes * bytes) := map (build_one m) (files m).
 
